@@ -166,7 +166,7 @@ func (x *engRun) quiesce(before int) {
 	if x.immCount() <= before {
 		return
 	}
-	deadline := time.Now().Add(20 * time.Second)
+	deadline := time.Now().Add(patience(20 * time.Second))
 	for x.immCount() != 0 && time.Now().Before(deadline) {
 		time.Sleep(200 * time.Microsecond)
 	}
